@@ -439,6 +439,7 @@ func parseRaceReports(text string) []raceReport {
 			continue
 		}
 		var pair []string
+		var underApply, underGrowth bool
 		blocks := strings.Split(rep, "\n\n")
 		for _, b := range blocks {
 			lines := strings.Split(strings.TrimSpace(b), "\n")
@@ -454,6 +455,17 @@ func parseRaceReports(text string) []raceReport {
 				continue
 			}
 			fn := ""
+			if len(pair) < 2 {
+				// which of the library's locked regions the access lies in: a commit growing every
+				// column for a new block (collection lock + each column's lock, exclusively) or a
+				// column's Apply (that column's lock, shared)
+				switch body := strings.Join(lines[1:], "\n"); {
+				case strings.Contains(body, "column.(*Txn).commitCapacity"):
+					underGrowth = true
+				case strings.Contains(body, "column.(*column).Apply"):
+					underApply = true
+				}
+			}
 			for _, l := range lines[1:] {
 				l = strings.TrimSpace(l)
 				if strings.HasPrefix(l, "/") || l == "" {
@@ -477,7 +489,13 @@ func parseRaceReports(text string) []raceReport {
 		}
 		pair = pair[:2]
 		sort.Strings(pair)
-		out = append(out, raceReport{Sig: "race/" + pair[0] + "|" + pair[1], Text: strings.TrimSpace(rep)})
+		prefix := "race/"
+		if underApply && underGrowth {
+			// both accesses lie in regions the column's own lock keeps apart: not the growth
+			// finding, which is about readers that hold no column lock
+			prefix = "race-under-column-lock/"
+		}
+		out = append(out, raceReport{Sig: prefix + pair[0] + "|" + pair[1], Text: strings.TrimSpace(rep)})
 	}
 	return out
 }
